@@ -1,5 +1,6 @@
 """C03 — a datetime window selects exactly the messages inside it."""
 from vlib import core, text_oracles
+from vlib.props import C08 as _c08
 
 MODS = ['S4V.Props.SyslSpec', 'S4V.Props.FilterSpec', 'S4V.Props.SortSpec']
 LEVEL_NOTE = ("Proved: the decision functions translated from the source (dt_pass_filters, dt_after_or_before, ts_pass_filters, em_pass_filters, "
@@ -14,11 +15,17 @@ ASSUME = ["text logs are chronological (the binary search is only meaningful the
 
 
 def oracle(ctx):
-    return text_oracles.oracle_window(ctx, ctx.q(16, 150), kinds=('plain', 'gz', 'plain', 'xz', 'bz2'))
+    a = text_oracles.oracle_window(ctx, ctx.q(16, 150), kinds=('plain', 'gz', 'plain', 'xz', 'bz2'))
+    # accounting records under windows (shares the generator of C08; its known finding F12 is not a C03 matter)
+    b, corr = _c08.oracle_and_corr(ctx)
+    b['failures'] = [f for f in b['failures'] if f.get('signature') != 'fixedstruct:nul-after-each-record']
+    ctx._extra_corr = corr
+    return core.merge_oracles([a, b])
 
 
 def check(ctx):
-    return core.standard_check(ctx, ['Filter', 'Keys', 'Blocks'], MODS, [('sysl', 2500, 40000)], oracle, LEVEL_NOTE, ASSUME)
+    return core.standard_check(ctx, ['Filter', 'Keys', 'Blocks', 'Consts'], MODS, [('sysl', 2500, 40000), ('proc', 300, 5000)], oracle, LEVEL_NOTE, ASSUME,
+                               extra_corr_fn=lambda c: getattr(c, '_extra_corr', []))
 
 
 def replay(ctx, data):
